@@ -294,7 +294,7 @@ def _select_histories(recs, limit, rng, want_fault=None, min_runs=1):
 
 
 def _run_histories(report, tier, maxver, maxruns, limit, faults, want_fault=None,
-                   variant=0, extend=None, a2_variant=None):
+                   variant=0, extend=None, a2_variant=None, with_rows=False):
     """Generate histories with TLC, replay them, validate all traces.
     Returns list of (history record, [run records], [trace verdicts])."""
     import random
@@ -312,7 +312,7 @@ def _run_histories(report, tier, maxver, maxruns, limit, faults, want_fault=None
 
     def one(rec):
         import copy
-        return runs.execute_history(rec['hist'], histories, oracles)
+        return runs.execute_history(rec['hist'], histories, oracles, with_rows=with_rows)
     with ThreadPoolExecutor(12) as ex:
         results = list(ex.map(one, chosen))
     traces = []
@@ -390,7 +390,8 @@ def c04(tier, replay=None):
     # second family: app a2's second evolution starts with RenameModel to a new table
     for family, a2_variant, share in (('chain', None, 1.0), ('rename', 3, 0.5)):
         chosen, results, histories, oracles, n = _run_histories(
-            report, tier, maxver, maxruns, int(limit * share), faults=False, a2_variant=a2_variant)
+            report, tier, maxver, maxruns, int(limit * share), faults=False, a2_variant=a2_variant,
+            with_rows=True)
         all_chosen += len(chosen)
         ngen += n
         _c04_judge(report, tier, family, chosen, results, histories, oracles, nontrivial)
@@ -426,6 +427,9 @@ def _c04_judge(report, tier, family, chosen, results, histories, oracles, nontri
             code = rr['code']
             detail = {'family': family, 'history': label, 'run': ri, 'code': code, 'post': rr.get('post'),
                       'outcome': s['outcome'], 'error': s['error_msg']}
+            if rr.get('rows_lost'):
+                report.fail({'class': 'rows-not-preserved', 'driver': rr['drv']},
+                            dict(detail, lost=rr['rows_lost'][:6]))
             if s['outcome'] != 'ok':
                 if s['error'] in ('CommandError',) and 'cannot resolve' in (s['error_msg'] or ''):
                     cls = 'upgrade-rejected'
